@@ -117,6 +117,8 @@ def shape_dtc(b: LayerBuilder, sid: int, r: random.Random, truth: Dict[str, Any]
                                                ("x", 0xFFFFFF, "x")])
     u8 = b.dop(f"{n}_u8", b.slt(bits=8))
     _svc(b, sid, n, [b.value("mask", u8)], [b.value("code", d), b.value("status", u8)], truth, 1, 4)
+    truth.setdefault("examples", {})[f"rs_{n}"] = [bytes([sid + 0x40, 0x12, 0x34, 0x56, 1]).hex(),
+                                                  bytes([sid + 0x40, 0x00, 0x01, 0x02, 0xFF]).hex()]
 
 
 def shape_struct(b: LayerBuilder, sid: int, r: random.Random, truth: Dict[str, Any]) -> None:
@@ -182,11 +184,29 @@ def shape_misc(b: LayerBuilder, sid: int, r: random.Random, truth: Dict[str, Any
     _svc(b, sid, n, rq, rs, truth, 3, 4)
 
 
+def shape_envdata(b: LayerBuilder, sid: int, r: random.Random, truth: Dict[str, Any]) -> None:
+    n = f"env{sid:02x}"
+    u8 = b.dop(f"{n}_u8", b.slt(bits=8))
+    dtc = b.dtc_dop(f"{n}_dtc", b.slt(bits=24), [("first_trouble", 0x112233, "first"), ("follow_up", 0x445566, "second"),
+                                                   ("no_env", 0xF00DE5, "third (no specific environment data)")])
+    edd = b.env_data_desc(f"{n}_edd", "DTC", [
+        ("common", True, [], [b.value("odo", u8)]),
+        ("for_first", None, [0x112233], [b.coded_const("c1", 0x01), b.value("temp", u8)]),
+        ("for_second", None, [0x445566], [b.value("volt", u8), b.value("amp", u8)]),
+    ])
+    _svc(b, sid, n, [b.value("mask", u8)], [b.value("DTC", dtc), b.value("dtc_info", edd)], truth, 1, None)
+    # valid PDUs cannot be found by random search (three specific 24-bit codes): give examples
+    rsid = sid + 0x40
+    truth.setdefault("examples", {})[f"rs_{n}"] = [
+        bytes([rsid, 0x11, 0x22, 0x33, 9, 1, 0x55]).hex(), bytes([rsid, 0x44, 0x55, 0x66, 9, 7, 8]).hex(),
+        bytes([rsid, 0xF0, 0x0D, 0xE5, 9]).hex()]
+
+
 SHAPES: List[Tuple[str, Shape]] = [
     ("ints", shape_ints), ("floats", shape_floats), ("strings", shape_strings_fixed), ("minmax", shape_minmax),
     ("leading", shape_leading), ("paramlen", shape_paramlen), ("texttable", shape_texttable), ("dtc", shape_dtc),
     ("struct", shape_struct), ("fields", shape_fields), ("mux", shape_mux), ("table", shape_table),
-    ("misc", shape_misc),
+    ("misc", shape_misc), ("envdata", shape_envdata),
 ]
 
 
